@@ -60,7 +60,7 @@ PROPS["C09"] = {
     "kani": "c09",
     "mir": "c09",
     "level": "model_checking",
-    "explanation": "Bounded model checking (Kani/CBMC) of the aggregate kernels: partial states of any split of a multiset merge to the state of the whole (AggState::merge for COUNT / TOTAL / AVG / MIN / MAX), the aggregators' update / merge / finalize equal the mathematical metric, the memory-tier update_from_event feeds exactly the stored values, snapshot_aggregator preserves the mergeable state. B-3: the coordinator's finalisation of a merged MIN / MAX state reports the numeric extreme whenever one exists (follows a helper of the same impl if the arm delegates to one). B-4: the row filter built from a plan always carries the scope conditions (event type, FOR, SINCE), also for aggregation plans (known finding F-C09-b, replayed end to end on both tiers). B-5: GroupKey::compute_prehash_from_columns hashes only payloads of Some(..) answers of the typed getters (on paths where the getter answered Some) and a NULL cell as the None marker, so the columnar grouped path never merges the NULL group with a value's group.",
+    "explanation": "Bounded model checking (Kani/CBMC) of the aggregate kernels: partial states of any split of a multiset merge to the state of the whole (AggState::merge for COUNT / TOTAL / AVG / MIN / MAX), the aggregators' update / merge / finalize equal the mathematical metric, the memory-tier update_from_event feeds exactly the stored values, snapshot_aggregator preserves the mergeable state. B-3: the coordinator's finalisation of a merged MIN / MAX state reports the numeric extreme whenever one exists (follows a helper of the same impl if the arm delegates to one). B-4: the row filter built from a plan always carries the scope conditions (event type, FOR, SINCE), also for aggregation plans (known finding F-C09-b, replayed end to end on both tiers). B-5: GroupKey::compute_prehash_from_columns hashes only payloads of Some(..) answers of the typed getters (on paths where the getter answered Some) and a NULL cell as the None marker, so the columnar grouped path never merges the NULL group with a value's group. B-6: AggregateStreamMerger::scalar_to_u64, which restores the PER bucket of a shard's partial row at the coordinator, returns Some(v) for every non-negative Int64 / Timestamp v including 0.",
     "outside": [
         "COUNT UNIQUE (HashSet), group keys and AggPartial::merge (HashMap), the segment-tier update(row, columns) and SIMD update_column paths (HashMap<String, ColumnValues>)",
         "calendar-aware PER bucketing (chrono), equality with the selection path over stored data, FOR / SINCE handling in aggregate mode (build_from_plan needs a QueryPlan)",
